@@ -246,6 +246,37 @@ def unnest_order(rep, tier):
   rep.coverage['evaluations'] = rep.coverage.get('evaluations', 0) + 2 * n
 
 
+LONG_NAME_PROGRAM = """@Engine("sqlite");
+%(T0)s("b", "b");
+%(T1)s(1, "a", tag: 1);
+%(T1)s(0, "a", tag: 2);
+%(D0)s("a") distinct :- %(T1)s(2, "a", tag: x9), c17 == Sum{(c14 + c14) :- %(T0)s(x15, x15), %(T1)s(x9, "b", tag: x16)}, c14 == Sum{x13 :- %(T1)s(x9, x10, tag: x11), %(T1)s(x9, x12, tag: x13), x11 >= (x11 * x11)}, c21 == Sum{(c14 + c17) :- %(T1)s(x9, x18, tag: (x9 * c17)), %(T1)s(c14, x19, tag: x20)};
+%(D1)s((x24 ++ x24), m0? Min= (if (c26 < c26) then x24 else x24)) distinct :- (c26 == (c26 * c26) | c26 != c26 | c26 != (c26 + c26)), %(T1)s(1, x24, tag: 2), %(T0)s(x24), c26 == Sum{x25 :- %(T1)s(x25, x24, tag: x25), x25 > (x25 - x25)};
+%(D2)s(x27, x27) :- %(T1)s(x27, "a", tag: x27), %(T1)s(x27, "a", tag: 2);
+%(D2)s(c29, c29) :- c29 == Count{(1 - 1) :- %(D0)s(x28), x28 <= (x28 ++ x28)}, (d30 == x28 | d30 == (x28 ++ x28)), %(D0)s(x28), %(D1)s(x28, m0: x28);
+"""
+
+
+def long_name_probe(rep):
+  """A program (found by the long-name renaming variant, reduced) in which three predicates have names of 100
+  characters or more: renaming them to short names must not matter.  Known finding: NamesAllocator.AllocateTable
+  drops the name hint at 100 characters, and the allocators of different rules then hand out the same WITH name."""
+  from vlib import logica_run
+  pad = lambda c, n: (c + 'LongPredicateName' * 7)[:n]
+  long_ = {'T0': pad('Tzero', 108), 'T1': pad('Tone', 104), 'D0': pad('Dzero', 104), 'D1': pad('Done', 41), 'D2': pad('Dtwo', 92)}
+  short = {k: v[:5] for k, v in long_.items()}
+  outs = {}
+  for label, nm in (('short', short), ('long', long_)):
+    st, a, b = logica_run.run_pred(LONG_NAME_PROGRAM % nm, nm['D2'])
+    outs[label] = (st, sorted(map(tuple, b)) if st == 'ok' else str(a)[-80:])
+  rep.coverage['long_name_probe'] = {k: v[0] for k, v in outs.items()}
+  if outs['short'] != outs['long']:
+    rep.violation('predicate-names-of-100-characters', {
+        'program_text': LONG_NAME_PROGRAM % long_, 'predicate': long_['D2'], 'outcome_with_short_names': outs['short'],
+        'outcome_with_long_names': outs['long'], 'law': 'consistently renaming predicates does not change the rows',
+        'how': 'vlib.logica_run.run_pred(program_text, predicate)'})
+
+
 def run(tier, replay=None):
   rep = common.Report(PID, tier, 'other')
   if replay and K.replay_program_rows(rep, replay):
@@ -266,6 +297,7 @@ def run(tier, replay=None):
       ('sibling_combines_share_local_names', V.siblings_share_local_names),
       ('rename_variables', lambda prog, r: V.rename(prog, r, variables=True, predicates=False)),
       ('rename_predicates', lambda prog, r: V.rename(prog, r, variables=False, predicates=True)),
+      ('rename_predicates_long_names', lambda prog, r: V.rename(prog, r, variables=False, predicates=True, long_names=True)),
   ]
   K.run_core(rep, PID, tier, PROFILE, variants, 60, 500, 'c07', replay=replay, ok=ok, info=info, metamorphic=True)
   if not replay:
@@ -273,4 +305,5 @@ def run(tier, replay=None):
     sibling_scopes(rep, tier)
     record_patterns(rep, tier)
     unnest_order(rep, tier)
+    long_name_probe(rep)
   return rep.finish()
